@@ -14,6 +14,7 @@ _LEVEL = ('Static necessary-condition checking: each rule is exact on its struct
           'claimed are those whose truth is visible in the shape of the code.')
 
 RULEDOC = {
+ 'SA-DEFAULT.resolve': 'the value of a parameter with default None is used only after the statement that replaces None by the documented default (asking whether it was given is allowed before)',
  'SA-STR.ext': 'the mangler keeps every extension length the acceptance predicate admits at the level (3 at level 1, up to the combined 30 at levels 2 and 3)',
  'SA-COORD.seekwrite': 'a record() written after a seek to X.extent_location() is the record of X (or of a part of X)',
  'SA-SIB.tool_views': "a tool call that acts on one view of the image (joliet / udf keyword only) is guarded by that view's own path and hide switches",
@@ -148,18 +149,18 @@ PROP = {
          'tag checksums/CRCs and reachability for an independent reader (values)'),
  'C11': ('El Torito, structural part', 'spec oracle; enumeration completeness; stale-flag must-pass-through; dispatch-shadow rule',
          'checksum of arbitrary boot files, load addresses after arbitrary histories (values)'),
- 'C12': ('Hybrid boot data, structural part', 'reaching definitions (stale loop targets); mirror-write comparison; spec oracle; uncompared-input rule inside the pass',
+ 'C12': ('Hybrid boot data, structural part', 'reaching definitions (stale loop targets); mirror-write comparison; spec oracle; uncompared-input rule inside the pass; checksum freshness and cache coherence; conversion symmetry',
          'GPT CRCs and CHS geometry arithmetic (values)'),
  'C13': ('Namespace rules, structural part', 'dominance of guards over insertions; call-graph must-pass-through; partial evaluation of the predicates',
          'the language accepted by each predicate versus the documented rules for every string'),
- 'C14': ('Failure atomicity restricted to explicit refusals', 'interprocedural may-dataflow of persistent writes vs. raise sites with constant-fact specialisation',
+ 'C14': ('Failure atomicity restricted to explicit refusals', 'interprocedural may-dataflow of persistent writes vs. raise sites with constant-fact specialisation; discharge of pre-validated statements by raise-site coverage; condition coverage of up-front resolutions; query/insert twin agreement; alias-restore and identity-operand lints',
          'exceptions raised implicitly (struct.error, IOError from the user fp) and equality of the bytes written afterwards'),
  'C15': ('Hostile images', 'call-graph reachability; loop classification with per-loop progress proofs; definite assignment',
          'memory proportionality and promptness as quantities'),
- 'C16': ('Reading files, structural part', 'must/may dataflow on the CFG of each stream method with linear-expression comparison; identity discipline',
+ 'C16': ('Reading files, structural part', 'must/may dataflow on the CFG of each stream method with linear-expression comparison (single-handle and multi-part designs); positioned-before-consumed for discovered file-object consumers; identity discipline',
          'equality of the bytes returned with the bytes supplied'),
- 'C17': ('In-place modification, structural part', 'who-may-write; coordinate-consistency; dispatch exhaustiveness',
-         'that exactly the addressed sectors change (values); validate-before-write ordering (SA-VBW was not built)'),
+ 'C17': ('In-place modification, structural part', 'who-may-write; coordinate-consistency (record position, seek target vs. written record); guard must-pass-through on every stale-marker and every call of the recomputation pass; dispatch exhaustiveness',
+         'that exactly the addressed sectors change (values)'),
  'C18': ('Derived names are legal', 'abstract interpretation over a finite string domain (sound for the string operations used)',
          'nothing structural left out; Unicode case-mapping expansion bound (3) is measured from the running interpreter'),
  'C19': ('Timestamps, structural part', 'same-source def-use rule; dimension algebra; spec oracle',
